@@ -462,6 +462,38 @@ func (r *run) xsend(c, g, u, n, fee int) {
 	}, map[[2]int]int{{u, g}: -(n + fee)}, nil, nil, r.withdrawCheck("precompile crossChain", c, g, u, n+fee, true))
 }
 
+// vsend: precompile crossChain with the zero token address and msg.value = amount + fee (FX travels as value)
+func (r *run) vsend(c, g, u, n, fee int) {
+	w := r.w
+	data, err := crosschaintypes.GetABI().Pack("crossChain", common.Address{}, helpers.GenExternalAddr(r.chain(c)), bi(n), bi(fee), fxtypes.MustStrToByte32(r.chain(c)), "")
+	if err != nil {
+		panic(err)
+	}
+	have := r.w.S.App.BankKeeper.GetBalance(r.w.S.Ctx, w.Users[u].AccAddress(), fxtypes.DefaultDenom).Amount.BigInt()
+	r.exec(fmt.Sprintf("vsend %d %d %d %d %d", c, g, u, n, fee), func() string {
+		if w.Groups[g].Kind != bx.KindFX {
+			return "err:only the origin token travels as msg.value"
+		}
+		return w.CallEVM(w.Users[u].Address(), crosschaintypes.GetAddress(), bi(n+fee), data)
+	}, map[[2]int]int{{u, g}: -(n + fee)}, nil, nil, func(res string) {
+		if res != "ok" && w.Groups[g].Kind == bx.KindFX && w.Groups[g].OnChain[c] && n > 0 && have.Cmp(bi(n+fee)) >= 0 && strings.Contains(res, "insufficient funds") {
+			r.out.Violate("withdrawal refused for lack of escrowed funds: precompile crossChain (msg.value) of single-chain fx token by a holder with sufficient balance")
+		}
+	})
+}
+
+// xincfee: precompile increaseBridgeFee paying with the group's ERC-20 token
+func (r *run) xincfee(c, id, u, g, n int) {
+	w := r.w
+	data, err := crosschaintypes.GetABI().Pack("increaseBridgeFee", r.chain(c), bi(id), w.Groups[g].Erc20, bi(n))
+	if err != nil {
+		panic(err)
+	}
+	r.exec(fmt.Sprintf("xincfee %d %d %d %d %d", c, id, u, g, n), func() string {
+		return w.CallEVM(w.Users[u].Address(), crosschaintypes.GetAddress(), big.NewInt(0), data)
+	}, map[[2]int]int{{u, g}: -n}, nil, nil, nil)
+}
+
 type poolRec struct{ c, id, u, g, amount, fee int }
 
 func (r *run) poolTxs() []poolRec {
@@ -1104,6 +1136,60 @@ func (r *run) batchScenario() {
 	}
 }
 
+// bridgeBal: what user u holds of the bridge denomination of (g, c) (FX: the coin itself)
+func (r *run) bridgeBal(u, g, c int) int {
+	d := r.w.Groups[g].Bridge[c]
+	if d == "" {
+		return 0
+	}
+	return int(r.w.S.App.BankKeeper.GetBalance(r.w.S.Ctx, r.w.Users[u].AccAddress(), d).Amount.Int64())
+}
+
+// randomIncfee: fee increase of a queued transfer — by message (paid in the bridge denomination, which a holder of an
+// externally-owned token first obtains with MsgConvertDenom) or through the precompile (paid in the ERC-20); mostly by
+// the sender with the transfer's token, sometimes with ANOTHER bridged token the payer holds, sometimes zero
+func (r *run) randomIncfee() {
+	rng := r.rng
+	txs := r.poolTxs()
+	if len(txs) == 0 {
+		r.incfee(0, 1, rng.Intn(bx.NUsers), 1, 1)
+		return
+	}
+	tx := txs[rng.Intn(len(txs))]
+	payer := tx.u
+	if rng.Intn(8) == 0 {
+		payer = rng.Intn(bx.NUsers)
+	}
+	g := tx.g
+	if rng.Intn(6) == 0 { // another token: prefer one whose bridge denomination / ERC-20 the payer holds
+		var cand []int
+		for _, o := range r.w.Groups {
+			if o.G != tx.g && o.OnChain[tx.c] && (r.bridgeBal(payer, o.G, tx.c) > 0 || r.ercBal(payer, o.G) > 0) {
+				cand = append(cand, o.G)
+			}
+		}
+		if len(cand) > 0 {
+			g = cand[rng.Intn(len(cand))]
+		} else {
+			g = rng.Intn(len(r.w.Groups))
+		}
+		r.out.Count("gen:incfee:other-token")
+	}
+	n := 1 + rng.Intn(4)
+	if rng.Intn(12) == 0 {
+		n = 0
+	}
+	if rng.Intn(2) == 0 && r.ercBal(payer, g) > 0 {
+		r.out.Count("gen:incfee:precompile")
+		r.xincfee(tx.c, tx.id, payer, g, n)
+		return
+	}
+	if r.w.Groups[g].Kind == bx.KindExternal && r.w.Groups[g].OnChain[tx.c] && r.bridgeBal(payer, g, tx.c) < n && r.baseBal(payer, g) >= n && rng.Intn(3) > 0 {
+		r.cden(g, payer, payer, n+rng.Intn(3), -1, tx.c) // obtain the bridge denomination first
+	}
+	r.incfee(tx.c, tx.id, payer, g, n)
+}
+
 func (r *run) randomOp() {
 	rng := r.rng
 	u := rng.Intn(bx.NUsers)
@@ -1111,7 +1197,7 @@ func (r *run) randomOp() {
 	case k < 18:
 		g, c := r.pickGroupChain(false)
 		r.deposit(c, g, u, 1+rng.Intn(40), rng.Intn(3) == 0)
-	case k < 32:
+	case k < 31:
 		u, g := r.holder(false)
 		fee := r.fee()
 		n := r.amount(r.baseBal(u, g) - fee)
@@ -1119,7 +1205,14 @@ func (r *run) randomOp() {
 			n = 1
 		}
 		r.send(r.chainOf(g), g, u, n, fee)
-	case k < 40:
+	case k < 34:
+		n := r.amount(r.baseBal(u, 0) - 1)
+		g := 0
+		if rng.Intn(12) == 0 {
+			g = rng.Intn(len(r.w.Groups))
+		}
+		r.vsend(r.chainOf(g), g, u, n, rng.Intn(3))
+	case k < 41:
 		u, g := r.holder(true)
 		fee := rng.Intn(3)
 		n := r.amount(r.ercBal(u, g) - fee)
@@ -1143,18 +1236,8 @@ func (r *run) randomOp() {
 			txp = &tx
 		}
 		r.cancel(tx.c, tx.id, who, rng.Intn(2) == 0, txp)
-	case k < 52:
-		txs := r.poolTxs()
-		if len(txs) == 0 {
-			r.incfee(0, 1, u, 1, 1)
-			return
-		}
-		tx := txs[rng.Intn(len(txs))]
-		g := tx.g
-		if rng.Intn(8) == 0 {
-			g = rng.Intn(5)
-		}
-		r.incfee(tx.c, tx.id, u, g, rng.Intn(5))
+	case k < 53:
+		r.randomIncfee()
 	case k < 60:
 		r.randomBatch()
 	case k < 68:
@@ -1180,9 +1263,29 @@ func (r *run) randomOp() {
 		g := rng.Intn(5)
 		r.cerc(g, u, rng.Intn(bx.NUsers), r.amount(r.ercBal(u, g)))
 	default:
-		g := 1 + rng.Intn(4)
 		dens := []int{-1, 0, 1, 2}
-		r.cden(g, u, rng.Intn(bx.NUsers), 1+rng.Intn(10), dens[rng.Intn(4)], dens[rng.Intn(4)])
+		if rng.Intn(8) == 0 {
+			g := 1 + rng.Intn(4)
+			r.cden(g, u, rng.Intn(bx.NUsers), 1+rng.Intn(10), dens[rng.Intn(4)], dens[rng.Intn(4)])
+			return
+		}
+		// state-aware: a holder converts base -> an alias of the token, or an alias it holds back to base / to another alias
+		u, g := r.holder(false)
+		if g == 0 {
+			g = 1 + rng.Intn(4)
+		}
+		src, dst, bal := -1, r.chainOf(g), r.baseBal(u, g)
+		for c := range bx.Chains {
+			if b := r.bridgeBal(u, g, c); b > 0 && rng.Intn(2) == 0 {
+				src, bal = c, b
+				dst = dens[rng.Intn(4)]
+			}
+		}
+		rc := u
+		if rng.Intn(4) == 0 {
+			rc = rng.Intn(bx.NUsers)
+		}
+		r.cden(g, u, rc, r.amount(bal), src, dst)
 	}
 }
 
